@@ -238,6 +238,11 @@ public:
             _write_queue.clear();
         }
 
+        // A handler may send again from inside its completion. The next
+        // write must not start, and purge the replies that arrived early,
+        // before every operation of this batch has had its turn.
+        _write_in_progress = !cancelled;
+
         // errors, if any, are propagated to ops
         for (auto& op : write_queue)
             op.complete(ec);
@@ -245,6 +250,7 @@ public:
         if (cancelled)
             return;
 
+        _write_in_progress = false;
         do_write();
     }
 
